@@ -250,6 +250,13 @@ func genC15(repo string) (string, error) {
 		}
 	}
 	fmt.Fprintf(&sb, "def iteratorValueStmts : List String := %s\n", LeanStrList(vs))
+	var nis []string
+	if f := FindFunc(rf, "", "newMMapIterator"); f != nil {
+		for _, st := range f.Body.List {
+			nis = append(nis, c15render(rfset, st))
+		}
+	}
+	fmt.Fprintf(&sb, "/-- every Reader.Iterator() call allocates a new iterator object -/\ndef newMMapIteratorStmts : List String := %s\n", LeanStrList(nis))
 
 	// ---- iterator.go
 	ifset, itf, err := ParseFile(repo, "kv/table/iterator.go")
@@ -358,6 +365,39 @@ func genC15(repo string) (string, error) {
 		}
 	}
 	fmt.Fprintf(&sb, "def levelGetFilesStmts : List String := %s\n", LeanStrList(gf))
+	// a version's level maps are its own objects: newLevel allocates, Clone adds every file to the
+	// clone's fresh levels, addFile/deleteFile act on the receiver's map
+	for _, fn := range [][2]string{{"", "newLevel"}, {"level", "addFile"}, {"level", "deleteFile"}} {
+		f := FindFunc(lf, fn[0], fn[1])
+		if f == nil {
+			return "", fmt.Errorf("kv/version/level.go: %s not found", fn[1])
+		}
+		var ss []string
+		for _, st := range f.Body.List {
+			ss = append(ss, c15render(lfset, st))
+		}
+		fmt.Fprintf(&sb, "def level_%s_Stmts : List String := %s\n", fn[1], LeanStrList(ss))
+	}
+	cl := FindFunc(vf, "version", "Clone")
+	if cl == nil {
+		return "", fmt.Errorf("version.Clone not found")
+	}
+	var cloneLoops []string
+	for _, st := range cl.Body.List {
+		if rs, ok := st.(*ast.RangeStmt); ok && c15render(vfset, rs.X) == "v.levels" {
+			cloneLoops = append(cloneLoops, c15render(vfset, rs))
+		}
+	}
+	fmt.Fprintf(&sb, "def versionCloneLevelLoops : List String := %s\n", LeanStrList(cloneLoops))
+	var nvl []string
+	if nv := FindFunc(vf, "", "newVersion"); nv != nil {
+		for _, st := range nv.Body.List {
+			if fs, ok := st.(*ast.ForStmt); ok {
+				nvl = append(nvl, c15render(vfset, fs))
+			}
+		}
+	}
+	fmt.Fprintf(&sb, "def newVersionLevelLoops : List String := %s\n", LeanStrList(nvl))
 	_, snf, err := ParseFile(repo, "kv/version/snapshot.go")
 	if err != nil {
 		return "", err
@@ -454,6 +494,13 @@ func genC15(repo string) (string, error) {
 		return "", fmt.Errorf("Uint32MinWidth: no default clause")
 	}
 	fmt.Fprintf(&sb, "\n/-- encoding.Uint32MinWidth -/\ndef uint32MinWidth (value : Nat) : Nat :=\n  %s%s\n", body.String(), def)
+
+	// ---- kv/flusher.go: Close before the NewFile log
+	_, kff, err := ParseFile(repo, "kv/flusher.go")
+	if err != nil {
+		return "", err
+	}
+	fmt.Fprintf(&sb, "\ndef storeFlusherCommitCalls : List String := %s\n", LeanStrList(CallSeq(FindFunc(kff, "storeFlusher", "Commit"))))
 
 	// ---- pkg/bufioutil: the table builder's writer
 	bwfset, bwf, err := ParseFile(repo, "pkg/bufioutil/bufio_writer.go")
